@@ -404,10 +404,11 @@ static std::string gen(Rng& rng, long, const Args& a) {
         continue;
       }
       if (!rng.coin(plinkNum, 10)) continue;
-      bool both = rng.coin(4, 5);
-      if (both || rng.coin()) edge(p, q);
-      if (both || segs.empty() || segs.back().rfind("E " + std::to_string(p) + " " + std::to_string(q) + " ", 0) != 0) edge(q, p);
+      int kind = (int)rng.below(10);  // 0-7 both directions, 8 only p->q, 9 only q->p (the other direction is empty)
+      if (kind != 9) edge(p, q);
+      if (kind != 8) edge(q, p);
     }
+  if (segs.empty()) segs.push_back("S 0 []");
   if (!fixed) {
     std::vector<long> alphabet = {0, 1, 2, B - 1, B};
     if (big) alphabet = {0, 1, 2, 3, 5};
